@@ -70,7 +70,7 @@ def create_linked_view(project, prefix=None, job_ids=None, path=None):
         )
         raise RuntimeError(err_msg)
 
-    path_function = _make_path_function(jobs, path)
+    path_function = path if callable(path) else _make_path_function(jobs, path)
 
     links = {}
     for job in jobs:
